@@ -244,10 +244,16 @@ func ReadPatchString(s string) (Diff, error) {
 		return diff, nil
 	}
 	var e DiffElement
+	// Index tested by the after-context op of each hunk (-1 if none).
+	var afterIndexes []int
 	for {
 		if len(patch) == 0 {
+			if err := checkAfterContext(diff, afterIndexes); err != nil {
+				return nil, err
+			}
 			return diff, nil
 		}
+		before := patch
 		e, patch, err = readPatchDiffElement(patch)
 		if err != nil {
 			return nil, err
@@ -255,6 +261,7 @@ func ReadPatchString(s string) (Diff, error) {
 		// Coalece diff elements on the same path.
 		if len(diff) == 0 {
 			diff = append(diff, e)
+			afterIndexes = append(afterIndexes, afterContextIndex(before, e))
 		} else {
 			i := len(diff) - 1
 			if diff[i].Path.JsonNode().Equals(e.Path.JsonNode()) && canCoalesce(diff[i], e) {
@@ -263,9 +270,52 @@ func ReadPatchString(s string) (Diff, error) {
 				diff[i].Add = append(e.Add, diff[i].Add...)
 			} else {
 				diff = append(diff, e)
+				afterIndexes = append(afterIndexes, afterContextIndex(before, e))
 			}
 		}
 	}
+}
+
+// afterContextIndex returns the array index tested by the op that became
+// the after context of e, or -1. Context ops are the first ops of the
+// hunk: before context first, after context second.
+func afterContextIndex(ops []patchElement, e DiffElement) int {
+	if len(e.After) != 1 || isVoid(e.After[0]) {
+		return -1
+	}
+	op := ops[0]
+	if len(e.Before) == 1 && !isVoid(e.Before[0]) && len(ops) > 1 {
+		op = ops[1]
+	}
+	path, err := readPointer(op.Path)
+	if err != nil || len(path) == 0 {
+		return -1
+	}
+	index, ok := path[len(path)-1].(PathIndex)
+	if !ok {
+		return -1
+	}
+	return int(index)
+}
+
+// checkAfterContext makes sure that the element tested as after context
+// is the one that follows the removed elements. Patch checks the after
+// context behind everything the hunk removes, so a test op pointing
+// anywhere else would be given a different meaning.
+func checkAfterContext(diff Diff, afterIndexes []int) error {
+	for i, e := range diff {
+		if afterIndexes[i] < 0 || len(e.Path) == 0 {
+			continue
+		}
+		index, ok := e.Path[len(e.Path)-1].(PathIndex)
+		if !ok {
+			continue
+		}
+		if afterIndexes[i] != int(index)+len(e.Remove) {
+			return fmt.Errorf("JSON Patch test op at index %v is not adjacent to the %v elements removed at index %v", afterIndexes[i], len(e.Remove), int(index))
+		}
+	}
+	return nil
 }
 
 // canCoalesce reports whether the diff element e, read from the ops
